@@ -13,7 +13,7 @@ RULE = ("each case is a seeded batch of inputs for one monitor kind (orthant / b
 ASSUMPTIONS = ["float64; projection identities checked with relative tolerance 1e-12*(|x|+radius)",
                "Jacobian compared only at relative distance >= 1e-3 from the active-set boundary",
                "M random SPD with cond <= 1e8, W full column rank (smallest singular value >= 1e-3 * largest)"]
-REQUIRED_MONITORS = ["orthant.projection", "ball.projection", "ball.degenerate", "ball.jacobian", "residual", "prox_parameter", "purity"]
+REQUIRED_MONITORS = ["orthant.projection", "ball.projection", "ball.degenerate", "ball.jacobian", "residual", "prox_parameter", "purity", "representation"]
 
 KINDS = ["orthant", "ball", "ball_jac", "residual", "proxpar", "purity"]
 
@@ -62,6 +62,20 @@ def run_case(spec, ctx):
             thunks.append(("Sphere.prox", {"x": x, "z": z, "r": ball.r}, (lambda a=x, c=z: ball.prox(a.copy(), c))))
             thunks.append(("Sphere.prox", {"x": x, "z": z, "r": ball.r, "instance": "fresh"}, (lambda a=x, c=z: Sphere(ball.r).prox(a.copy(), c))))
         purity_check(ctx, rng, thunks, mon="purity", scribble=True)
+        from vlib.oracles import representation_check
+        calls = []
+        for name, d, _ in thunks[:60]:
+            if name == "NegativeOrthant.prox":
+                calls.append((name, NegativeOrthant.prox, (np.array(d["x"], copy=True),), {}))
+            elif "instance" not in d:
+                calls.append((name, ball.prox, (np.array(d["x"], copy=True), d["z"]), {}))
+                if d["x"].size:
+                    rho_ = float(loguniform(rng, 1e-2, 1e2)); y_ = rng.normal(size=d["x"].size)
+                    zz_ = np.array([d["z"]], dtype=float)
+                    for act_ in (False, True):
+                        calls.append(("Sphere.residual", ball.residual, (np.array(d["x"], copy=True), y_, zz_, rho_, act_), {}))
+                        calls.append(("Sphere.Jacobian", ball.Jacobian, (np.array(d["x"], copy=True), y_, zz_, rho_, act_), {}))
+        representation_check(ctx, calls, mon="representation")
         # work arrays: a Newton / fixed-point loop keeps ONE x and ONE y array and updates their contents in place between
         # calls; what the ball answers must depend on the contents, not on the identity of the arrays
         for _ in range(4):
